@@ -178,3 +178,67 @@ func vfGenFixedNonNumberQuery(d *vfDB, r *rand.Rand) (q *vfQuery) {
 	n := g.finish(&vfNode{op: "where", src: ext, expr: pred, out: ext.out})
 	return &vfQuery{root: n}
 }
+
+// vfGenFixedKeyLookupQuery: (U project m) join ((U project m) leftjoin U) where e is V, for a table U with a two-column
+// key (e, m). The where result has key (m) only because e is fixed, while the leftjoin below it is read through an index on
+// m alone, so a parent that looks rows up by m relies on the where to find the one row among several source rows.
+func vfGenFixedKeyLookupQuery(d *vfDB, r *rand.Rand) (q *vfQuery) {
+	defer func() {
+		if e := recover(); e != nil {
+			if _, ok := e.(vfTooBig); ok {
+				q = nil
+				return
+			}
+			panic(e)
+		}
+	}()
+	g := vfNewGen(r, d)
+	type cand struct {
+		t    *vfTable
+		e, m string
+	}
+	var cands []cand
+	for _, t := range d.tables {
+		for _, k := range t.keys {
+			if len(k) == 2 {
+				cands = append(cands, cand{t, k[0], k[1]}, cand{t, k[1], k[0]})
+			}
+		}
+	}
+	if len(cands) == 0 {
+		return nil
+	}
+	c := vfPick(r, cands)
+	mc, ok := vfFindCol(c.t.cols, c.m)
+	if !ok || mc.kind == vfObj {
+		return nil
+	}
+	// a value of e: one that occurs, or "" (which a leftjoin also produces for unmatched rows)
+	lit := vfS("")
+	if len(c.t.rows) > 0 && r.IntN(3) != 0 {
+		if l, ok := vfLitOf(c.t.rows[r.IntN(len(c.t.rows))][c.e]); ok {
+			lit = l
+		}
+	}
+	proj := func() *vfNode {
+		return g.finish(&vfNode{op: "project", src: g.tableNode(c.t), cols: []string{c.m}, out: []vfCol{mc}})
+	}
+	p2 := proj()
+	u := g.tableNode(c.t)
+	lj := &vfNode{op: "leftjoin", src: p2, src2: u, cols: []string{c.m}, out: slices.Clone(p2.out)}
+	for _, col := range u.out {
+		if col.name != c.m {
+			lj.out = append(lj.out, col)
+		}
+	}
+	lj = g.finish(lj)
+	w := g.finish(&vfNode{op: "where", src: lj, expr: vfOp("is", vfColRef(c.e), vfConst(lit)), out: lj.out})
+	p1 := proj()
+	j := &vfNode{op: "join", src: p1, src2: w, cols: []string{c.m}, out: slices.Clone(p1.out)}
+	for _, col := range w.out {
+		if col.name != c.m {
+			j.out = append(j.out, col)
+		}
+	}
+	return &vfQuery{root: g.finish(j)}
+}
